@@ -39,10 +39,11 @@ pub fn day_hash(day: i64, salt: u64) -> u64 {
 }
 
 pub fn tods_for(day: i64) -> [i128; 3] {
-    // third class: a hashed time of day, on every other day one in which only some of the fields
-    // h / min / s / ms / us / ns are non-zero
+    // third class: a hashed time of day; on every other day one in which only some of the fields
+    // h / min / s / ms / us / ns are non-zero, counted from midnight or back from the next midnight
     let h = day_hash(day, 1);
-    [0, NS_D - 1, if day_hash(day, 3) % 2 == 0 { crate::gen::tod_masked(1 + (day_hash(day, 4) % 63) as u8, h) } else { (h as i128) % NS_D }]
+    let masked = crate::gen::tod_masked(1 + (day_hash(day, 4) % 63) as u8, h);
+    [0, NS_D - 1, match day_hash(day, 3) % 4 { 0 => masked, 1 => NS_D - masked, _ => (h as i128) % NS_D }]
 }
 
 /// The enumeration shared by C08, C09, C16, C19: calls f(day1900, scale index, time of day, full) for the
@@ -388,16 +389,20 @@ fn reject_oracle(c: &Reject) -> Verdict {
 
 // ---------------------------------------------------------------- second = 60: every month end 1960-2030 (exhaustive)
 fn leap60_enum(_t: Tier, shard: usize, sink: &mut dyn FnMut(Reject) -> bool) {
+    // second = 60 on days at and around every month end 1958-2040, at hours and minutes at and away from 23:59
+    // (hour 24 included: 24:59:60 is no time of day), with and without a fraction
     let mut i = 0usize;
-    for y in 1960..=2030i32 {
+    for y in 1958..=2040i32 {
         for m in 1..=12u8 {
             let last = month_len(y as i64, m as u32) as u8;
-            for d in [last, last - 1, 1] {
-                for (hh, mm) in [(23u8, 59u8), (23, 58), (22, 59), (0, 0)] {
-                    for ns in [0u32, 999_999_999, 1_000_000_001] {
-                        i += 1;
-                        if i % SHARDS == shard && !sink(Reject { y, m, d, hh, mm, ss: 60, ns, s: i % 9 }) {
-                            return;
+            for d in [1, 15, last - 2, last - 1, last] {
+                for hh in [0u8, 12, 22, 23, 24] {
+                    for mm in [0u8, 58, 59] {
+                        for ns in [0u32, 999_999_999, 1_000_000_001] {
+                            i += 1;
+                            if i % SHARDS == shard && !sink(Reject { y, m, d, hh, mm, ss: 60, ns, s: i % 9 }) {
+                                return;
+                            }
                         }
                     }
                 }
